@@ -290,6 +290,13 @@ class _ActionPrintConfig(Action):
             parser.exit()
 
     @staticmethod
+    def discard_print_config_request(parser):
+        while parser:
+            if hasattr(parser, "print_config"):
+                delattr(parser, "print_config")
+            parser = getattr(parser, "parent_parser", None)
+
+    @staticmethod
     def is_print_config_requested(parser):
         while parser:
             if hasattr(parser, "print_config"):
